@@ -295,7 +295,7 @@ def nontrivial(prop, scn, trace_events):
                     return True
         return False
     if prop == 'C19':
-        return any(e['ev'] in ('restart', 'restart_wrong_key') for e in trace_events) or any(len(pp['segs']) >= 2 for e in trace_events for pp in e.get('post', []))
+        return any(e['ev'] == 'restart' for e in trace_events) or any(len(pp['segs']) >= 2 for e in trace_events for pp in e.get('post', []))
     if prop == 'C18':
         seen = set()
         for s in scn['steps']:
